@@ -507,6 +507,47 @@ func c05(c *Ctx) {
 	for k := range insts {
 		insts[k].Class = "form"
 	}
+	// fixed-register operand types (al, cl, ax, eax, rax, xmm0) offered every other view of the same
+	// hardware register: whatever is accepted must still assemble to that very view
+	fixedViews := map[string][]operand.Op{
+		"AL": {reg.AH, reg.AX, reg.EAX, reg.RAX}, "AX": {reg.AL, reg.AH, reg.EAX, reg.RAX}, "EAX": {reg.AL, reg.AX, reg.RAX}, "RAX": {reg.AL, reg.AX, reg.EAX},
+		"CL": {reg.CH, reg.CX, reg.ECX, reg.RCX}, "XMM0": {reg.Y0, reg.Z0},
+	}
+	markF := len(insts)
+	for _, name := range names {
+		ci := ctors[name]
+		for _, df := range ci.Doc {
+			for slot, tn := range df[1:] {
+				alts, isFixed := fixedViews[strings.ToUpper(tn)]
+				if !isFixed {
+					continue
+				}
+				for _, alt := range alts {
+					var ops []operand.Op
+					okf := true
+					for k, t2 := range df[1:] {
+						if k == slot {
+							ops = append(ops, alt)
+							continue
+						}
+						ss := physSamples(strings.ToUpper(t2), rng)
+						if len(ss) == 0 {
+							okf = false
+							break
+						}
+						ops = append(ops, Pick(rng, ss))
+					}
+					if okf {
+						i, err, _ := x86.VerifBuild(opcIndexOf[ci.Opcode], ci.Suffixes, ops)
+						add(i, err)
+					}
+				}
+			}
+		}
+	}
+	for k := markF; k < len(insts); k++ {
+		insts[k].Class = "fixed-register-view"
+	}
 	// dedicated probes of classes avo accepts but the assembler refuses
 	mark0 := len(insts)
 	add(x86.ADDPS(reg.X20, reg.X1))
